@@ -1,7 +1,7 @@
 (* C19 - TIFA's operator typing agrees with what CPython does at run time (core types int, float, str, list, tuple).
    The operator table is REGENERATED from pedal/types/operations.py on every run.
    Comparisons: Tifa.visit_Compare's dispatch lists, the orderable sets and the allows_membership shapes are REGENERATED too.
-   PARTIAL: the value-typing part is checked by the correspondence run only. *)
+   Value typing (get_pedal_type_from_value, is_subtype, the normal form of a Python type) is modelled too (end of this file). *)
 From Coq Require Import List String Bool.
 Import ListNotations.
 From Pedal Require Import model.C19_Types gen.C19_Gen model.C19_Compare proof.C19_Lemmas proof.C19_Compare_Lemmas.
@@ -51,3 +51,21 @@ Theorem C19_pow_int_int_refuted :
   T "Pow" CInt CInt <> PImpossible /\ exists r, In r (cpy_binop "Pow" CInt CInt) /\ conforms r (T "Pow" CInt CInt) = false.
 Proof. exact pow_int_int_refuted. Qed.
 Print Assumptions C19_pow_int_int_refuted.
+
+(* value typing: for values of ANY size and nesting (ints, floats, bools, strs, None, lists, tuples, dicts, sets) the type pedal
+   computes is a subtype of itself and of the normal form of the value's own Python type.  Model: model/C19_Values.v, tied to
+   get_pedal_type_from_value / normalize_type / is_subtype by the correspondence run (type structure of every generated value,
+   is_subtype on ordered pairs of value types). *)
+From Pedal Require Import model.C19_Values proof.C19_Values_Lemmas.
+
+Theorem C19_value_type_is_a_subtype_of_itself : forall v, sub (type_of v) (type_of v) = true.
+Proof. exact value_type_is_a_subtype_of_itself. Qed.
+Print Assumptions C19_value_type_is_a_subtype_of_itself.
+
+Theorem C19_value_type_conforms : forall v, sub (type_of v) (norm_of v) = true.
+Proof. exact value_type_conforms. Qed.
+Print Assumptions C19_value_type_conforms.
+
+Theorem C19_subtyping_is_reflexive : forall t, sub t t = true.
+Proof. exact sub_refl. Qed.
+Print Assumptions C19_subtyping_is_reflexive.
